@@ -40,6 +40,12 @@ func init() {
 			{ID: "C07-P4-no-scan", File: "core/parsigdb/memory.go", Expect: "P4",
 				Old: "\t\tif s.ShareIdx == value.ShareIdx {",
 				New: "\t\tif s.ShareIdx == value.ShareIdx && s.ShareIdx < 0 {"},
+			{ID: "C07-P8-skip-evaluation", File: "core/parsigdb/memory.go", Expect: "P8",
+				Old: "\t\t// Check if sufficient matching partial signed data has been received.\n",
+				New: "\t\tif len(sigs) != db.threshold {\n\t\t\tcontinue\n\t\t}\n\n"},
+			{ID: "C07-P4-split-critical-section", File: "core/parsigdb/memory.go", Expect: "P4",
+				Old: "\tisNewKey := len(db.entries[k]) == 0\n",
+				New: "\tdb.mu.Unlock()\n\tdb.mu.Lock()\n\n\tisNewKey := len(db.entries[k]) == 0\n"},
 			{ID: "C07-P5-ignore-expired", File: "core/parsigdb/memory.go", Expect: "P5",
 				Old: "\tif status == core.DeadlineExpired {",
 				New: "\tif status == core.DeadlineExpired && len(signedSet) == 0 {"},
@@ -257,6 +263,85 @@ func c07(c *rt.Ctx) {
 				}
 			}
 			c.Check("store append after same-share scan", posOf(up), found, why)
+			// the scan and the append form one critical section: no explicit Unlock between reading the list and appending
+			for _, in := range an.Instrs(fn, false) {
+				lk, ok := in.(*ssa.Lookup)
+				if !ok || !isFieldMap(memdb + ".entries")(lk.X) || !an.InstrReaches(lk, up) {
+					continue
+				}
+				u := an.PathThrough(lk, up, func(x ssa.Instruction) bool {
+					call, ok := x.(*ssa.Call)
+					return ok && an.Static("sync.Mutex.Unlock", "sync.RWMutex.Unlock")(&call.Call)
+				})
+				pos := posOf(up)
+				if u != nil {
+					pos = u.Pos()
+				}
+				c.Check("store scan and append in one critical section", pos, u == nil,
+					"the lock is released between reading entries[k] for the duplicate scan and appending: two concurrent stores of the same share both pass the scan and both append")
+				break
+			}
+		}
+	})
+
+	c.Rule("P8", 1, func() {
+		// every accepted insertion is evaluated against the threshold: from db.store (accepted edge) every path to the
+		// next iteration / exit passes getThresholdMatching
+		fn := c.Fn("core/parsigdb.MemDB.StoreExternal")
+		gtm := c.Fn("core/parsigdb.getThresholdMatching")
+		for _, st := range c.SomeCalls(fn, an.Static("core/parsigdb.MemDB.store"), "db.store", false) {
+			l := an.InnermostLoop(fn, st.Block())
+			errs, okv := an.StatusOf(st, 1)
+			prune := func(b *ssa.BasicBlock, succ int) bool {
+				iff, ok := b.Instrs[len(b.Instrs)-1].(*ssa.If)
+				if !ok {
+					return false
+				}
+				for _, e := range errs {
+					for _, cd := range an.CondsOn(fn, e) {
+						if cd.If == iff && cd.Other != nil && an.IsNilConst(cd.Other) {
+							return b.Succs[succ] == cd.Succ(cd.Op != token.EQL) // err != nil edge: rejected
+						}
+					}
+				}
+				if okv != nil {
+					for _, cd := range an.CondsOn(fn, okv) {
+						if cd.If == iff && cd.Other == nil {
+							return b.Succs[succ] == cd.Succ(false) // duplicate ignored
+						}
+					}
+				}
+				// `len(list) < db.threshold` is a sound shortcut (getThresholdMatching starts with the same test)
+				if bin, ok := iff.Cond.(*ssa.BinOp); ok {
+					x, y, op := bin.X, bin.Y, bin.Op
+					if op == token.GTR || op == token.GEQ {
+						x, y = y, x
+						if op == token.GTR {
+							op = token.LSS
+						} else {
+							op = token.LEQ
+						}
+					}
+					if call, ok := x.(*ssa.Call); ok && op == token.LSS && isLoadOfValueField(y, memdb+".threshold") {
+						if bi, ok := call.Call.Value.(*ssa.Builtin); ok && bi.Name() == "len" {
+							if ex, ok := call.Call.Args[0].(*ssa.Extract); ok && ex.Index == 0 && ex.Tuple == st.Value() {
+								return succ == 0
+							}
+						}
+					}
+				}
+				return false
+			}
+			opt := an.PassOpt{Prune: prune}
+			if l != nil {
+				opt.StopAt = func(b *ssa.BasicBlock) bool { return b == l.Header }
+			}
+			path, esc := an.EscapePath(st, func(in ssa.Instruction) bool {
+				ci, ok := in.(ssa.CallInstruction)
+				return ok && ci.Common().StaticCallee() == gtm
+			}, opt)
+			c.Check("StoreExternal accepted insertion→getThresholdMatching", st.Pos(), !esc,
+				"an accepted partial signature is not evaluated against the threshold on path "+an.PathString(c.P, path)+": a matching group can reach threshold unnoticed")
 		}
 	})
 
